@@ -105,6 +105,7 @@ class MetaRunner(object):
             await asyncio.shield(self._aclose_runners(runner_tasks))
             raise
         finally:
+            point("mr.finally")
             self.running.clear()
             # the runners are closed: a later registration is queued for the next run
             # instead of being handed to a dead runner
